@@ -713,3 +713,20 @@ Proof.
       try (vm_compute; reflexivity); try (intros _ Hc; discriminate Hc); try (left; reflexivity); try (right; reflexivity).
   - vm_compute. reflexivity.
 Qed.
+
+(* What of the program TEXT matters (the class of seeded C07-8): evaluation depends on the text only through its token
+   sequence after the `=tok` re-split and through whether the byte `@` occurs in it — so `... =@` and `... = @` (same
+   tokens, both contain `@`) evaluate identically, including the .raSearch rule. *)
+Theorem c07_program_text_dependence :
+  forall p E i e e',
+    win_tokens e = win_tokens e' -> contains_at e = contains_at e' ->
+    win_final_vars p E i e = win_final_vars p E i e' /\
+    forall S (ops : wops S) s, walk_win_framedata ops p E i e s = walk_win_framedata ops p E i e' s.
+Proof. exact text_dependence. Qed.
+Print Assumptions c07_program_text_dependence.
+
+Example c07_nonvacuous_glued_align :
+  let a := bs "$T1 $esp 16 $T0 1 =@ = $eip .raSearch ^ =" in
+  let b := bs "$T1 $esp 16 $T0 1 = @ = $eip   .raSearch ^ =" in
+  win_tokens a = win_tokens b /\ contains_at a = contains_at b /\ contains_at a = true.
+Proof. vm_compute. repeat split; reflexivity. Qed.
